@@ -51,9 +51,12 @@ def one(args):
             write_image(src, case["srckind"], files)
         sel_ids = case["select"]                       # None = all, else list of indices
         argv = [src, "--to_" + case["sw"], os.path.join(W, "t1." + case["sw"])]
+        selnames = None
         if sel_ids is not None:
-            argv += ["--files"] + ([variant(case["names"][j], case["how"]) for j in sel_ids] or ["NOSUCH"])
-        new = [500 + j for j in (range(len(files)) if sel_ids is None else sel_ids)]
+            selnames = [variant(case["names"][j], case["how"]) for j in sel_ids] or ["NOSUCH"]
+            argv += ["--files"] + selnames
+        # exactly the files whose names match one of the requested names without regard to case - ALL of them when several files carry that name
+        new = [500 + j for j in range(len(files)) if selnames is None or case["names"][j].upper() in {n.upper() for n in selnames}]
         cmd = {"tool": "util", "sw": case["sw"], "app": False, "named": True, "new": new, "srcn": len(files)}
         code, out = hostrun.run_main(file_util, argv)
         out_recs.append(step_record(k * 2, cat, cmd, argv[2], code, out, None))
@@ -79,7 +82,9 @@ def cases(rnd, n):
         srckind = rnd.choice(["cas", "dsk"])
         if k % 9 == 4:
             # a tape may hold several files of the same name (also: differing only in case / behind the 8th character): all of them are carried across
-            names, sel, srckind, sw = rnd.choice([["GAME", "LOADER", "GAME"], ["prog", "PROG"], ["PROGRAM10", "PROGRAM11", "OTHER"]]), None, "cas", rnd.choice(["cas", "cas", "dsk"])
+            names, sel, srckind, sw = rnd.choice([["GAME", "LOADER", "GAME"], ["prog", "PROG"], ["PROGRAM10", "PROGRAM11", "OTHER"], ["GAME", "GAME", "LAST"]]), None, "cas", rnd.choice(["cas", "cas", "dsk"])
+            if names[0] != "PROGRAM10" and rnd.random() < 0.6:
+                sel = rnd.choice([[0], [1], [0, len(names) - 1], [len(names) - 1]])
         out.append({"seed": rnd.randrange(1 << 30), "names": names, "srckind": srckind, "sw": sw, "select": sel,
                     "how": rnd.choice(["same", "upper", "lower", "swap"]), "lens": [rnd.choice([1, 20, 255, 256, 300, 2294, 2295, 2304, 5000]) for _ in range(3)],
                     "kinds": [rnd.choice([(2, 0), (2, 0), (0, 0), (1, 255), (2, 255), (1, 0), (0, 255), (3, 255)]) for _ in range(3)], "gapped": rnd.random() < 0.3})
